@@ -72,6 +72,23 @@ def straddle(n1, n2, direct=True):
     return s.compute()
 
 
+def repeated_total(k, n, blob=1):
+    """A root tree naming ONE sub-tree k times, the sub-tree holding exactly n files of [blob] bytes each (by binary
+    decomposition over doubling levels, ~64 + popcount distinct trees): the root's totals are k*n files and k*n*blob bytes.
+    With an older commit on the sub-tree alone, so that both delivery orders of the sub-tree occur among the scans."""
+    import scenario as S
+    s = S.Scenario()
+    b = s.add({"kind": "blob", "size": blob, "data": None})
+    levels = [s.add({"kind": "tree", "entries": [(0o100644, b"f", b)]})]
+    while len(levels) < 64:
+        levels.append(s.add({"kind": "tree", "entries": [(0o40000, b"a", levels[-1]), (0o40000, b"b", levels[-1])]}))
+    sub = s.add({"kind": "tree", "entries": [(0o40000, b"t%02d" % i, levels[i]) for i in range(64) if (n >> i) & 1]})
+    root = s.add({"kind": "tree", "entries": [(0o40000, b"d%d" % i, sub) for i in range(k)]})
+    c = s.add({"kind": "commit", "tree": root, "parents": []})
+    s.refs.append((b"refs/heads/main", c))
+    return s.compute()
+
+
 def bombs(ctx, res):
     """Composition: repositories whose true values straddle 2^32 and 2^64."""
     import time
@@ -118,6 +135,21 @@ def bombs(ctx, res):
                 SP.closed_form_case(eng, res, sc, sc.enum_random([len(sc.objects) - 1], rng0, style=style), exp,
                                     "bomb of fan-out %d x %d (%s)" % (breadth, breadth, style))
         SP.wide_cases(eng, res, S.HIST_KEYS, "saturation", True, rng0)
+        # one sub-tree named k times with totals at and next to floor(capacity / k): products that land exactly on, just below
+        # and just above 2^64-1 (bytes) and 2^32-1 (files), for k = 2..10 — whether k additions or one multiplication are used
+        C64, C32_ = 2**64 - 1, 2**32 - 1
+        nrep = 0
+        for k in ((2, 3, 4, 7) if quick else (2, 3, 4, 5, 6, 7, 8, 10)):
+            for n in sorted({C64 // k, C64 // k + 1, C64 // k - 1, 2**63, 10**19, (2**64 * 2) // 3 // 1, C32_ // k, C32_ // k + 1}):
+                if n <= 0 or n >= 2**64:
+                    continue
+                sc = repeated_total(k, n)
+                root = len(sc.objects) - 1
+                for style in ("gitlike", "referent_first"):
+                    SP.one_case(eng, res, sc, [], [], [], sc.enum_random([root], rng0, style=style), S.HIST_KEYS,
+                                "one sub-tree of %d one-byte files named %d times (%s)" % (n, k, style))
+                    nrep += 1
+        res.coverage_extra["repeated_subtree_product_cases"] = nrep
         # a saturated report (infinity sign, highest level of concern) is the same bytes under every locale / terminal
         sb = bomb(10, 10, 6)
         SP.env_invariance(eng, res, sb, sb.enum_gitlike([len(sb.objects) - 1]), "saturated git bomb 10^10")
